@@ -45,6 +45,8 @@ typedef struct {
     uint64_t newstates;
     uint32_t skipped_p; /* preemption alternatives seen but unaffordable */
     uint64_t tracehash;
+    uint64_t thash[ABTMC_MAXT]; /* per-thread hash chains at the end */
+    uint64_t tops[ABTMC_MAXT];  /* per-thread log lengths */
     int obslen;
     char obs[1024];
     int nstat;
